@@ -183,9 +183,61 @@ def shard(args):
                             'first_log_entries': ents[:3]})
         if args['kind'] == 'main' and args['lo'] == 0:
             unchecked_cases(res, ns, wd, log, outcomes)
+        if args['kind'] == 'main' and args['lo'] == 4:
+            exit_status_cases(res, ns, wd, log)
     finally:
         shutil.rmtree(wd, ignore_errors=True)
     return res.to_dict()
+
+
+STATUSES = [('e0', 0, None), ('e1', 1, None), ('e2', 2, None),
+            ('e127', 127, None), ('e255', 255, None), ('sabrt', -6, 'abort'),
+            ('skill', -9, 'kill'), ('ssegv', -11, 'segv')]
+
+
+def exit_status_cases(res, ns, wd, log):
+    """The exit-status clause over the whole range of statuses a command can
+    end with (exit codes 0..255 and deaths from a signal), golden x
+    candidate, with the streams equal: accepted iff the statuses are equal.
+    The statuses come from real process runs."""
+    from ddsmt import checker, options
+    vc = realrun.vcmd_path()
+    a = options.args()
+    for gname, gcode, gfault in STATUSES:
+        rules = []
+        for name, code, fault in STATUSES:
+            rules.append(realrun.rule(f'has:X_{name}', max(code, 0), '', '',
+                                      fault=fault))
+        rules.append(realrun.rule('all', max(gcode, 0), '', '', fault=gfault))
+        spec = os.path.join(wd, f'spec_exit_{gname}.txt')
+        with open(spec, 'w') as f:
+            f.write('\n'.join(rules) + '\n')
+        a.cmd = [vc, spec]
+        a.cmd_cc = None
+        for ign in (False, True):
+            set_options(a, ign, False, False, None, None)
+            checker.do_golden_runs()
+            for name, code, fault in STATUSES:
+                f = os.path.join(wd, 'cand.smt2')
+                with open(f, 'w') as fh:
+                    fh.write(f'(X_{name})\n')
+                got = checker.check(f)
+                want = code == gcode
+                res.count('evaluations')
+                res.count('exit_status_pairs')
+                res.count('verdict_accept' if got else 'verdict_reject')
+                res.add_distinct(common.digest(repr(('exit', gname, name,
+                                                     ign))))
+                if bool(got) != want:
+                    res.violation(
+                        'exit-status-comparison',
+                        f'golden run ends with status {gcode}, candidate '
+                        f'with status {code} (streams equal, '
+                        f'ignore-output={ign}): check() = {got}', {
+                            'golden_status': gcode,
+                            'candidate_status': code,
+                            'ignore_output': ign
+                        })
 
 
 def classify(main_opts, cc_opts, beh, cbeh):
@@ -307,7 +359,9 @@ def run(ctx):
         + ('sampled option pairs, each with all 32 cc outcomes and all 32 '
            'main outcomes varied one at a time' if ctx.tier == 'quick' else
            'all 256 option pairs x 32 x 32 outcomes, exhaustive') +
-        '; --unchecked with every outcome; argv/extension on end-to-end '
+        '; --unchecked with every outcome; 8 golden x 8 candidate exit '
+        'statuses (0,1,2,127,255, SIGABRT, SIGKILL, SIGSEGV) from real '
+        'process runs; argv/extension on end-to-end '
         'runs (7 input names x 3 argument lists x 3 configurations); real '
         'parallel runs (-j 2..8, all strategies, slow-starting command, '
         'injected delays): every verdict a worker returns is compared with '
